@@ -514,6 +514,9 @@ func (g *gen) pquery() step {
 	return step{"op": "pget", "f": f}
 }
 
+// next-query keys differing in exactly one component (same as NQPairs in SegDB.tla, plus one unused key)
+var nqPairs = [][2]int{{11, 12}, {11, 13}, {11, 22}, {21, 12}, {12, 11}}
+
 var usageChoices = [][]int{{1}, {2}, {4}, {8}, {1, 2}, {1, 8}, {1, 2, 8}, {4, 8}, {1, 2, 4, 8}}
 
 func (g *gen) bquery() step {
@@ -605,8 +608,7 @@ func (g *gen) mutator(kind string) step {
 		case k < 84:
 			return step{"op": "pexp", "now": g.timePoint()}
 		default:
-			pairs := [][2]int{{11, 12}, {11, 13}, {12, 11}}
-			pr := pairs[r.Intn(3)]
+			pr := nqPairs[r.Intn(len(nqPairs))]
 			return step{"op": "nqins", "src": pr[0], "dst": pr[1], "t": 1 + r.Intn(6)}
 		}
 	}
@@ -627,8 +629,7 @@ func (g *gen) mutator(kind string) step {
 func (g *gen) query(kind string) step {
 	if kind == "p" {
 		if g.rng.Intn(8) == 0 {
-			pairs := [][2]int{{11, 12}, {11, 13}, {12, 11}, {13, 11}}
-			pr := pairs[g.rng.Intn(4)]
+			pr := nqPairs[g.rng.Intn(len(nqPairs))]
 			return step{"op": "nqget", "src": pr[0], "dst": pr[1]}
 		}
 		return g.pquery()
@@ -959,6 +960,16 @@ func main() {
 			}
 			for k := 0; k < *nq; k++ {
 				r.exec(g.query(r.kind))
+			}
+			// histories with next-query inserts: read every key back
+			hasNQ := false
+			for _, s := range rec.Steps {
+				hasNQ = hasNQ || s["op"] == "nqins"
+			}
+			if hasNQ {
+				for _, pr := range nqPairs {
+					r.exec(step{"op": "nqget", "src": pr[0], "dst": pr[1]})
+				}
 			}
 			r.endTx()
 			for _, o := range fullObs(r.kind) {
